@@ -26,8 +26,13 @@ pub fn check_key<V: Fv>(seed: [u8; 32], gso: bool, rep: &mut Report) {
             return;
         }
     };
+    check_parts::<V>(&sk, &pk, &seed, gso, &replay, rep);
+}
+
+/// All oracles on one key pair, however it was produced.
+pub fn check_parts<V: Fv>(sk: &V::Sk, pk: &V::Pk, seed: &[u8], gso: bool, replay: &dyn Fn() -> Value, rep: &mut Report) {
     let n = V::N;
-    let b0 = V::basis(&sk);
+    let b0 = V::basis(sk);
     if b0.iter().any(|p| p.len() != n) {
         rep.violation("key:wrong-degree", format!("{}: basis polynomials have lengths {:?}", V::NAME, b0.iter().map(|p| p.len()).collect::<Vec<_>>()), replay());
         return;
@@ -206,6 +211,83 @@ fn run_history(vseed: u64, hi: usize, rep: &mut Report) {
     }
 }
 
+/// Key candidates with a PLANTED out-of-range coefficient: `math::ntru_gen` (the core of key
+/// generation, public) is driven by a scripted generator whose first samples are forced to a
+/// chosen value, so that the first coefficient of the first candidate f is +-16 (Falcon-1024)
+/// / +-32 (Falcon-512), just outside the secret-key field range, with everything else honest.
+/// A correct generator discards or repairs such a candidate AND re-validates; whatever key it
+/// finally returns gets all oracles (through the byte encoding, which is how a key reaches a
+/// SecretKey object from outside).
+fn steered_candidates<V: Fv>(ctx: &Ctx, runs: usize, rep: &mut Report) {
+    use falcon_rust::verif_hooks as vh;
+    use rand::Rng;
+    // base-sampler bytes for z0 = 3 and z0 = 4 (found with the hook wrapper)
+    let mut rng = crate::util::rng_for(ctx.seed, "c04-plant-base");
+    let mut find = |want: i16| -> [u8; 9] {
+        loop {
+            let b: [u8; 9] = rng.gen();
+            if vh::sampler::base_sampler(b) == want {
+                return b;
+            }
+        }
+    };
+    let (b3, b4) = (find(3), find(4));
+    let per_coef = 4096 / V::N as u64;
+    let r = par_for(runs, ncpu(), |i, rep| {
+        // sign byte: low bit 1 -> z = 1 + z0 = 4; low bit 0 -> z = -z0 = -4
+        let (base, sign) = if i % 2 == 0 { (b3, 1u8) } else { (b4, 0u8) };
+        // every second candidate carries the planted coefficient (the first one does)
+        let strat = crate::gen::Strategy::PlantPerCandidate { groups: per_coef, base, sign, every: 2 };
+        let label = format!("c04-plant-{}-{}", V::NAME, i);
+        let replay = || json!({"variant": V::NAME, "kind": "planted-candidate", "vseed": ctx.seed, "label": label, "strategy": format!("{:?}", strat)});
+        let mut srng = crate::gen::ScriptedRng::new(ctx.seed, &label, strat.clone(), 400_000_000);
+        vh::take_keygen_candidates();
+        let out = monitored(move || {
+            let (f, g, cf, cg) = falcon_rust::math::ntru_gen(V::N, &mut srng);
+            (f.coefficients, g.coefficients, cf.coefficients, cg.coefficients, srng.cand)
+        });
+        vh::take_keygen_candidates();
+        rep.evaluations += 1;
+        match out {
+            Err(p) if p.no_progress => rep.inconclusive("ntru_gen did not return within the randomness budget under a planted candidate".into()),
+            Err(p) => rep.violation(&format!("panic:ntru_gen@{}", short_loc(&p.location)), format!("{} ntru_gen panicked with a planted out-of-range coefficient: {}", V::NAME, p.message), replay()),
+            Ok((f, g, cf, _cg, cands)) => {
+                let to64 = |v: &Vec<i16>| v.iter().map(|&x| x as i64).collect::<Vec<i64>>();
+                let (w, _) = spec::sk_widths(V::N);
+                let lim = (1i64 << (w - 1)) - 1;
+                if to64(&f).iter().chain(to64(&g).iter()).any(|x| x.abs() > lim) || to64(&cf).iter().any(|x| x.abs() > 127) {
+                    // not representable: C05's business, nothing to examine through the encoding
+                    rep.count("planted_runs_with_unrepresentable_result", 1);
+                    return;
+                }
+                let bytes = spec::sk_encode(&to64(&f), &to64(&g), &to64(&cf));
+                match monitored(|| V::sk_from_bytes(&bytes)) {
+                    Ok(Ok(sk)) => {
+                        let pk = V::pk_from_sk(&sk);
+                        let rp = || json!({"variant": V::NAME, "generated_sk": hex(&bytes), "kind": "planted-candidate"});
+                        check_parts::<V>(&sk, &pk, &bytes[1..33], false, &rp, rep);
+                        rep.count("planted_candidate_runs", 1);
+                        rep.count("planted_candidates_drawn", (cands + 1) / 2);
+                        if cands % 2 == 1 {
+                            // the accepted candidate was one of the planted ones: it must have
+                            // been repaired (and, in a correct generator, re-validated)
+                            rep.count("planted_runs_ending_on_a_planted_candidate", 1);
+                        }
+                        let first = f[0] as i64;
+                        if first.abs() > lim {
+                            rep.count("planted_coefficient_survived", 1);
+                        }
+                    }
+                    Ok(Err(_)) => rep.count("planted_runs_with_undecodable_result", 1),
+                    Err(p) => rep.violation(&format!("panic:sk_from_bytes@{}", short_loc(&p.location)), p.message.clone(), replay()),
+                }
+            }
+        }
+        rep.nontrivial(format!("plant|{}|{}", V::NAME, i).as_bytes());
+    });
+    rep.merge(r);
+}
+
 pub fn keys(ctx: &Ctx, rep: &mut Report) {
     if !crate::pool::keygen_responds::<F512>() {
         rep.inconclusive("key generation did not return within 180 s (canary); reported as inconclusive, never as a violation".into());
@@ -237,6 +319,35 @@ pub fn keys(ctx: &Ctx, rep: &mut Report) {
     });
     rep.merge(r);
     histories(ctx, rep);
+    steered_candidates::<F1024>(ctx, ctx.sz(64, 1200), rep);
+    steered_candidates::<F512>(ctx, ctx.sz(32, 600), rep);
+    rep.require("planted_candidate_runs", 40);
+    // SecretKey::generate(): the seed comes from the thread-local OS-seeded generator
+    let r = par_for(ctx.sz(24, 400), ncpu(), |i, rep| {
+        fn one<V: Fv>(rep: &mut Report) {
+            rep.evaluations += 1;
+            match monitored(|| {
+                let sk = V::generate();
+                let pk = V::pk_from_sk(&sk);
+                (sk, pk)
+            }) {
+                Ok((sk, pk)) => {
+                    let skb = V::sk_to_bytes(&sk);
+                    let replay = || json!({"variant": V::NAME, "generated_sk": hex(&skb)});
+                    check_parts::<V>(&sk, &pk, &skb[..32], false, &replay, rep);
+                    rep.count("keys_from_generate", 1);
+                }
+                Err(p) => rep.violation(&format!("panic:generate@{}", short_loc(&p.location)), format!("{} SecretKey::generate() panicked: {}", V::NAME, p.message), json!({"variant": V::NAME})),
+            }
+        }
+        if i % 4 == 0 {
+            one::<F1024>(rep);
+        } else {
+            one::<F512>(rep);
+        }
+    });
+    rep.merge(r);
+    rep.require("keys_from_generate", 10);
     rep.require("keys_falcon512", 50);
     rep.require("keys_falcon1024", 10);
     rep.require("keys_with_independent_gso", 2);
@@ -247,6 +358,23 @@ pub fn replay(r: &Value) -> bool {
     let mut seed = [0u8; 32];
     seed.copy_from_slice(&unhex(r["seed"].as_str().unwrap()));
     let gso = r["gso"].as_bool().unwrap_or(false);
+    if let Some(skh) = r["generated_sk"].as_str() {
+        // a key from SecretKey::generate(): its seed is not known; the recorded key is examined
+        let b = unhex(skh);
+        fn go<V: Fv>(b: &[u8], rep: &mut Report) {
+            if let Ok(sk) = V::sk_from_bytes(b) {
+                let pk = V::pk_from_sk(&sk);
+                let replay = || json!({"generated_sk": hex(b)});
+                check_parts::<V>(&sk, &pk, &b[..32], false, &replay, rep);
+            }
+        }
+        if r["variant"] == "falcon512" {
+            go::<F512>(&b, &mut rep);
+        } else {
+            go::<F1024>(&b, &mut rep);
+        }
+        return crate::util::print_replay(&rep);
+    }
     if let Some(h) = r["history"].as_array() {
         // found inside a call history: the whole history is run again in a fresh thread
         run_history(h[0].as_u64().unwrap_or(0), h[1].as_u64().unwrap_or(0) as usize, &mut rep);
